@@ -31,7 +31,7 @@ var argVals = []*int64{nil, ip(0), ip(1), ip(3)}
 
 func ip(n int64) *int64 { return &n }
 
-func argTuples(thorough bool, root *Node) [][3]*int64 {
+func argTuples(thorough, flow bool, root *Node) [][3]*int64 {
 	ua, uc := uses(root)
 	hasLoop := false
 	walk(root, func(x *Node) {
@@ -47,6 +47,9 @@ func argTuples(thorough bool, root *Node) [][3]*int64 {
 				out = append(out, [3]*int64{a, c, nil})
 			}
 		}
+	case hasLoop && flow:
+		// size-4 control-flow programs: a = 0, 1, 3 (0, 1, 3 iterations; REPEAT at least once)
+		out = [][3]*int64{{ip(0), ip(3), nil}, {ip(1), ip(3), nil}, {ip(3), ip(3), nil}}
 	case hasLoop:
 		// a bounds the loops: NULL,0,1,3 give 0..3 iterations
 		out = [][3]*int64{{nil, ip(0), nil}, {ip(0), nil, nil}, {ip(1), ip(3), nil}, {ip(3), ip(1), nil}}
@@ -78,7 +81,7 @@ func argTuples(thorough bool, root *Node) [][3]*int64 {
 // ---------------------------------------------------------------------------------------------
 
 type checker struct {
-	r    *core.Run
+	r        *core.Run
 	memo     map[string]Verdict // canonical case -> verdict (minimisation reuses results)
 	runs     int64
 	fixtures int64
@@ -484,9 +487,9 @@ func (ck *checker) report(check string, root *Node, a, c, bIn *int64, v Verdict)
 }
 
 // checkProgram runs one program with all its argument tuples.
-func (ck *checker) checkProgram(root *Node, thorough bool) {
+func (ck *checker) checkProgram(root *Node, thorough, flow bool) {
 	r := ck.r
-	tuples := argTuples(thorough, root)
+	tuples := argTuples(thorough, flow, root)
 	vs := ck.verdicts(root, tuples, false)
 	feat := strings.Join(features(root), ",")
 	for i, v := range vs {
@@ -541,10 +544,10 @@ func init() {
 		ID:          "C24",
 		Level:       "exploration",
 		QuickBudget: 110,
-		Rule: "every procedure body = one root statement with <= N explicit AST nodes and compound nesting <= D (quick N=3,D=2; thorough N=3,D=3 over the larger alphabet plus all size-4 programs, D=3, over a reduced 'flow' alphabet {SET, SIGNAL, SELECT INTO no row, SELECT; IF, IF/ELSE, CASE, WHILE, REPEAT, LOOP, BEGIN..END plain/shadow/CONTINUE+EXIT SQLEXCEPTION/CONTINUE NOT FOUND handler}) over the grammar: " +
+		Rule: "every procedure body = one root statement with <= N explicit AST nodes and compound nesting <= D (quick N=3,D=2; thorough N=3,D=3 over the larger alphabet plus all size-4 programs, D=3, over a reduced 'flow' alphabet {SET, SIGNAL, LEAVE, ITERATE; IF, REPEAT, LOOP, LOOP-with-block-body, BEGIN..END with shadowing DECLARE / CONTINUE SQLEXCEPTION handler / EXIT SQLEXCEPTION handler}, a in {0,1,3}) over the grammar: " +
 			"leaves {SET v=v+1, SELECT v,c+1 INTO b,c, SELECT x INTO v (no row: NOT FOUND), SIGNAL SQLSTATE '45000', SELECT v,tag (result set), CALL q(v,b,c), LEAVE/ITERATE of every enclosing label" +
 			"; thorough adds SET b=v, SELECT COUNT(*) INTO v FROM trace, SET c=c+1, SET a=a+1, INSERT into a unique table (fails the 2nd time), CALL q(a,v,c), CALL of a procedure that assigns its IN parameter, CALL of a procedure whose parameters are also named a,b,c, CALL of a failing procedure, CALL of a procedure returning a result set}; " +
-			"compounds {IF, IF/ELSE (condition v<2; thorough also a>0 and c IS NULL), IF/ELSEIF/ELSE (thorough), simple CASE without ELSE, simple CASE with ELSE, searched CASE without ELSE, WHILE, REPEAT, LOOP (labelled, counters i1..i3, at most 3 iterations, bound = parameter a), " +
+			"compounds {IF, IF/ELSE (condition v<2; thorough also a>0 and c IS NULL), IF/ELSEIF/ELSE (thorough), simple CASE without ELSE, simple CASE with ELSE (thorough), searched CASE without ELSE, WHILE, REPEAT, LOOP, LOOP whose body is a BEGIN..END block with its own DECLARE v (labelled, counters i1..i3, at most 3 iterations, bound = parameter a), " +
 			"labelled BEGIN..END plain | with shadowing DECLARE v | with DECLARE CONTINUE|EXIT HANDLER FOR SQLEXCEPTION|NOT FOUND (handler body SET | INSERT | BEGIN..END)}; every statement list starts with a trace INSERT (tag,v,b,c,a) and has one after every compound statement; " +
 			"frame: PROCEDURE p(IN a INT, OUT b INT, INOUT c INT) with DECLARE v INT DEFAULT 0 and a final trace; arguments (a,c) over {NULL,0,1,3}: thorough all 16 tuples; quick 4 tuples covering every value of each parameter for programs with loops (a bounds the loops) and 2 tuples (a in {NULL,1}, c in {3,NULL}) for loop-free programs (one value for a parameter the program never uses); @b preset to NULL (and every one-statement program once more with @b = 7: check out-parameter-initial-value). " +
 			"Oracle = reference structured interpreter on the same AST: CALL fails/succeeds, trace table rows in order, @b, @c (unchanged when the CALL fails), the returned result set (= the LAST result set of the reference sequence; none => OK result), termination (deterministic step guard). " +
@@ -601,7 +604,7 @@ func init() {
 						return
 					}
 					r.AnnounceCase(mustJSON(root))
-					ck.checkProgram(root, pt.fullTuples)
+					ck.checkProgram(root, pt.fullTuples, pt.name != "main")
 					if size(root) == 1 {
 						// OUT parameters start as NULL whatever the caller's variable holds, and a failing
 						// CALL leaves the caller's variables alone: every one-statement program with @b = 7
